@@ -1,13 +1,15 @@
 #!/bin/sh
-# runs seedcheck.py on every delivered seed that has not been processed yet
+# seedall.sh <root, e.g. /tmp/seed2> <offset added to the seed number, e.g. 2>
+# runs seedcheck.py on every delivered seed under <root> that has not been processed yet
+root="${1:-/tmp/seed}"; off="${2:-0}"
 cd /verif
-for d in /tmp/seed/C*/SEED/[12]; do
+for d in $root/C*/SEED/[12]; do
   [ -f "$d/patch.diff" ] || continue
-  id=$(echo "$d" | sed 's#/tmp/seed/\(C[0-9]*\)/SEED/\([12]\)#\1#'); n=$(basename "$d")
+  id=$(echo "$d" | sed 's#.*/\(C[0-9]*\)/SEED/[12]#\1#'); n=$(( $(basename "$d") + off ))
   [ -f "/verif/seeded/$id-$n/meta.json" ] && continue
   grep -q "^$id-$n " /tmp/seedall.done 2>/dev/null && continue
   echo "=== $id-$n $(date +%H:%M:%S)"
-  python3 seedcheck.py "$d" "$id" > /tmp/seedcheck-$id-$n.json 2>&1
+  python3 seedcheck.py "$d" "$id" --name=$n > /tmp/seedcheck-$id-$n.json 2>&1
   python3 -c "
 import json,sys
 try:
